@@ -872,6 +872,14 @@ func replayBatch(col *collector, d *ev.ReplayDoc) {
 
 func TestCheck(t *testing.T) {
 	log.Root().SetHandler(log.DiscardHandler())
+	if os.Getenv("C13_SCHED_REPLAY") != "" {
+		schedReplayChild(t)
+		return
+	}
+	if shard, n, ok := ev.Shard(); ok && os.Getenv("C13_PART") == "sched" {
+		schedWorker(t, shard, n)
+		return
+	}
 	debug.SetGCPercent(50) // argon2id header hashes allocate their memory per call: keep the heap small and hot
 	run := ev.Start("exploration")
 	run.Rule = "one evaluation = one call of VerifyHeader / VerifyUncles / VerifyHeaders on a concrete input compared with the reference verdict; distinct_nontrivial = distinct (network, child height, first violated rule) for headers, (tree, height, set size, reference reason) for uncle sets, (network, batch length, first invalid index, deviation) for batches"
@@ -879,7 +887,7 @@ func TestCheck(t *testing.T) {
 	run.Assume("headers: the chain reader is a harness stub that finds headers by hash (header-cache behaviour); parent and grandparent are known, the header itself is not")
 	run.Assume("clock: time.Now() is the fixed clock of a testing/synctest bubble (2000-01-01T00:00:00Z) for the header lattice; batches use header times before 2000 or in 2100 so the verdict is the same under the real clock")
 	run.Assume("uncles: block trees of 10 blocks with one sibling per height (mainnet schedule for the 2-uncle epoch, testnet2 for the 1-uncle epoch incl. the hash-version change at height 8); ordered uncle lists of length <= 3; an uncle's own timestamp is not compared with the clock (judged relative to its parent only)")
-	run.Assume("batches: linked batches (each header's parent hash is its predecessor's hash) of length <= 4; free-running with GOMAXPROCS in {1,2,3,4,16}; the schedule is not controlled in this part")
+	run.Assume("batches: linked batches (each header's parent hash is its predecessor's hash) of length <= 4; free-running with GOMAXPROCS in {1,2,3,4,16}; in addition every schedule of VerifyHeaders up to a preemption bound is explored under the controlled scheduler (batch_schedules)")
 
 	realOut := os.Stdout
 	col := &collector{}
@@ -909,6 +917,10 @@ func TestCheck(t *testing.T) {
 			})
 		case "batch":
 			replayBatch(col, d)
+		case "sched":
+			if schedReplay(d) {
+				run.Violate(ev.Violation{Scenario: d.Scenario, Oracle: d.Oracle, CaseID: d.CaseID, Detail: d.Detail})
+			}
 		default:
 			ev.Broken("replay: unknown kind %q", kind)
 		}
@@ -932,6 +944,7 @@ func TestCheck(t *testing.T) {
 		defer tm.Stop()
 		synctest.Test(t, func(t *testing.T) { partLattice(run, col, over.Load) })
 	})
+	timed("batch_schedules", func() { partSched(run) })
 	run.Set("part_seconds", secs)
 	finish()
 }
